@@ -611,6 +611,57 @@ Proof.
 Qed.
 
 (* ---------------------------------------------------------------------- *)
+(* a window the watcher's baseline accepts stays "no threat" until retraining *)
+
+(* the installed watcher's baseline finds no violation in fingerprint [p] *)
+Definition watcher_accepts (p : peptide) (s : sys) : Prop :=
+  exists t, s_tcell s = Some t /\ check (t_prof t) p = [].
+
+(* no operation other than train_agent touches the learned profile *)
+Lemma accepts_preserved : forall rnd g p s o s' out,
+  watcher_accepts p s -> replaces_watcher o = false -> sys_step rnd false g s o = (s', out) ->
+  watcher_accepts p s'.
+Proof.
+  intros rnd g p s o s' out [t [Ht C]] NR H. unfold watcher_accepts.
+  destruct o; cbn [sys_step replaces_watcher] in *; try discriminate.
+  - (* inspect (of any fingerprint) *) destruct p0 as [q|].
+    + destruct (sys_inspect_inv g s t q s' _ Ht H) as [[m [_ [_ [_ [_ S']]]]]|[t' [r0 [TI [_ S']]]]].
+      * subst s'. cbn. eauto.
+      * destruct (tcell_inspect_state _ _ _ _ TI) as [P _]. exists t'. split; [exact S'|].
+        rewrite P. exact C.
+    + unfold sys_inspect in H. rewrite Ht in H. inversion H; subst. eauto.
+  - inversion H; subst. cbn. rewrite Ht. cbn. eexists. split; [reflexivity|exact C].
+  - inversion H; subst. cbn. rewrite Ht. cbn. eexists. split; [reflexivity|exact C].
+  - inversion H; subst. cbn. rewrite Ht. cbn. eexists. split; [reflexivity|exact C].
+  - inversion H; subst. cbn. eauto.
+  - inversion H; subst. cbn. eauto.
+  - inversion H; subst. cbn. eauto.
+  - destruct (mem_import _ _ _ _) as [mem' imp']. inversion H; subst. cbn. eauto.
+  - inversion H; subst. cbn. eauto.
+  - inversion H; subst. cbn. eauto.
+  - inversion H; subst. cbn. eauto.
+  - inversion H; subst. cbn. eauto.
+  - inversion H; subst. eauto.
+  - inversion H; subst. cbn. eauto.
+  - inversion H; subst. cbn. eauto.
+  - inversion H; subst. cbn. eauto.
+Qed.
+
+Lemma accepted_window_silent : forall rnd g p ops s0 s out,
+  watcher_accepts p s0 -> Forall (fun o => replaces_watcher o = false) ops ->
+  In (s, OInspect (Some p), out) (run rnd false g s0 ops) ->
+  watcher_accepts p s /\ exists r sp, out = OutResp r sp /\ silent r /\ r_viol r = [].
+Proof.
+  intros rnd g p ops. induction ops as [|a ops IH]; intros s0 s out A F H; cbn [run] in H.
+  - contradiction.
+  - destruct (sys_step rnd false g s0 a) as [s1 out1] eqn:E. inversion F; subst.
+    destruct H as [H|H].
+    + inversion H; subst. split; [exact A|]. destruct A as [t [Ht C]].
+      eapply inside_baseline_step; eauto.
+    + apply (IH s1 s out); [eapply accepts_preserved; eauto | assumption | assumption].
+Qed.
+
+(* ---------------------------------------------------------------------- *)
 (* self-tolerance after training                                            *)
 
 Section Training.
@@ -711,6 +762,69 @@ Section Training.
       exists s2. eexists; eexists. split; [rewrite O; reflexivity|].
       split; [apply after_treg_silent; exact S|]. split; [rewrite after_treg_viol; exact V|].
       rewrite after_treg_s1. eapply tcell_inspect_inside_s1; eauto.
+  Qed.
+
+  (* what successful training installs: a fresh watcher (no anomalies, no flag, not
+     desensitised) whose learned baseline accepts the window it was learned from —
+     for EVERY rational value of every feature (nothing about the scale of a
+     confidence or the sign of a latency is assumed); memory and tolerance record
+     are left alone *)
+  Lemma trained_baseline_proof : forall g s p s1,
+    (0 <= g_tol g)%Q -> representable p ->
+    (forall a, p_canary p = Some a -> (0 <= a)%Q) ->
+    sys_step rnd false g s (OTrain (Some p)) = (s1, OutTrain Positive) ->
+    exists t, s_tcell s1 = Some t /\ t_prof t = train_profile rnd (g_tol g) p /\
+              check (t_prof t) p = [] /\
+              within (ol_lo (t_prof t)) (ol_hi (t_prof t)) (p_ol p) = true /\
+              within (rt_lo (t_prof t)) (rt_hi (t_prof t)) (p_rt p) = true /\
+              within (cf_lo (t_prof t)) (cf_hi (t_prof t)) (p_cf p) = true /\
+              is_anergic t = false /\ t_anom t = 0 /\ t_manual t = false /\
+              s_mem s1 = s_mem s /\ s_rec s1 = s_rec s /\
+              trained_obs s1 (OTrain (Some p)) (OutTrain Positive) = [88; 0].
+  Proof.
+    intros g s p s1 T R CN H. cbn [sys_step] in H. unfold sys_train in H.
+    destruct (_ <? _); [inversion H|]. destruct (_ <=? _); [inversion H|].
+    destruct (_ && _); [inversion H|]. inversion H; subst; clear H.
+    pose proof (trained_profile_accepts (g_tol g) p T R CN) as C.
+    destruct R as [R0 [Rol [Rrt [Rcf _]]]].
+    exists (fresh_tcell (train_profile rnd (g_tol g) p) 3 5).
+    cbn [set_tcell s_tcell s_mem s_rec fresh_tcell t_prof t_anom t_manual].
+    split; [reflexivity|]. split; [reflexivity|]. split; [exact C|].
+    assert (W : within (ol_lo (train_profile rnd (g_tol g) p)) (ol_hi (train_profile rnd (g_tol g) p)) (p_ol p) = true /\
+                within (rt_lo (train_profile rnd (g_tol g) p)) (rt_hi (train_profile rnd (g_tol g) p)) (p_rt p) = true /\
+                within (cf_lo (train_profile rnd (g_tol g) p)) (cf_hi (train_profile rnd (g_tol g) p)) (p_cf p) = true).
+    { unfold train_profile.
+      destruct (calc_bounds rnd (g_tol g) (p_ol p) (p_ols p)) as [ol1 ol2] eqn:B1.
+      destruct (calc_bounds rnd (g_tol g) (p_rt p) (p_rts p)) as [rt1 rt2] eqn:B2.
+      destruct (calc_bounds rnd (g_tol g) (p_cf p) (p_cfs p)) as [cf1 cf2] eqn:B3.
+      cbn [ol_lo ol_hi rt_lo rt_hi cf_lo cf_hi].
+      rewrite (calc_bounds_contains _ _ _ _ _ T R0 Rol B1).
+      rewrite (calc_bounds_contains _ _ _ _ _ T R0 Rrt B2).
+      rewrite (calc_bounds_contains _ _ _ _ _ T R0 Rcf B3). auto. }
+    destruct W as [W1 [W2 W3]].
+    split; [exact W1|]. split; [exact W2|]. split; [exact W3|].
+    split; [reflexivity|]. split; [reflexivity|]. split; [reflexivity|].
+    split; [reflexivity|]. split; [reflexivity|].
+    unfold trained_obs. cbn [set_tcell s_tcell fresh_tcell t_prof]. rewrite C. reflexivity.
+  Qed.
+
+  (* ... and that window stays "no threat": after successful training, in every later
+     history that does not retrain (flags, canary-independent second signals, stored /
+     imported / recalled threats with the window's own hashes, resets, false-alarm
+     resets, tolerance-record edits, inspections of other fingerprints in between),
+     every inspection of the trained window is NONE / IGNORE with no violations *)
+  Lemma trained_window_stays_proof : forall g s p s1 ops s2 out,
+    (0 <= g_tol g)%Q -> representable p ->
+    (forall a, p_canary p = Some a -> (0 <= a)%Q) ->
+    sys_step rnd false g s (OTrain (Some p)) = (s1, OutTrain Positive) ->
+    Forall (fun o => replaces_watcher o = false) ops ->
+    In (s2, OInspect (Some p), out) (run rnd false g s1 ops) ->
+    exists r sp, out = OutResp r sp /\ silent r /\ r_viol r = [].
+  Proof.
+    intros g s p s1 ops s2 out T R CN H F I.
+    destruct (trained_baseline_proof g s p s1 T R CN H) as [t [Ht [_ [C _]]]].
+    assert (A : watcher_accepts p s1) by (exists t; auto).
+    destruct (accepted_window_silent rnd g p ops s1 s2 out A F I) as [_ X]. exact X.
   Qed.
 End Training.
 
